@@ -32,6 +32,8 @@ def main():
         args.remove('--round5'); root = '/tmp/se'; names = {'a': 'i', 'b': 'j'}
     if '--round6' in args:
         args.remove('--round6'); root = '/tmp/sf'; names = {'a': 'k', 'b': 'l'}
+    if '--round7' in args:
+        args.remove('--round7'); root = '/tmp/sg'; names = {'a': 'm', 'b': 'n'}
     for prop in args:
         src = '%s/%s/out' % (root, prop)
         for v in ('a', 'b'):
